@@ -66,6 +66,8 @@ def build():
     f.replace_span(m.start(), m.end(), "let %s: %s = " % (m.group(1), m.group(2)), "R14",
                    "lazy_static! { static ref N: T = E; } => let N: T = E; (memoisation of a pure initialiser dropped)")
     f.replace_span(inner_end + 1, cb + 1, "", "R14", "lazy_static! (closing brace)")
+    for cm_ in re.finditer(r"\bconst\s+\w+\s*:\s*&(?!\s*')", f.orig):
+        f.insert_at(cm_.end(), "'static ")   # elided 'static spelled out (Verus turns consts into items with explicit lifetimes)
     # byte-string literals of the body: contents by axiom generated from the literal text
     lits = []
     for lm in re.finditer(r'b"((?:[^"\\]|\\.)*)"', f.orig):
